@@ -47,7 +47,8 @@ impl<'p> Painter<'p> {
 //@ stub src/handlers/hunk_header.rs write_line_of_code_with_optional_path_and_line_number spec=hunk_header.wloc
 //@ fn src/handlers/hunk_header.rs write_line_of_code_with_optional_path_and_line_number spec=hunk_header.wloc.body od=off as=write_line_of_code_with_optional_path_and_line_number_body
 //@rewriteall <<<draw_fn(>>> => <<<verif_draw(&mut draw_fn,>>>
-//@afterstmt <<<let plus_line_number =>>>| proof { reveal_strlit(" "); reveal_strlit(""); if style_sections is Some && line@.len() > 0 { assert(/* @C03:when.style.sections.are.supplied.the.text.to.paint.is.the.code.fragment.they.were.computed.for */ line@ =~= code_fragment@ + seq![' ']); assert(line@.drop_last() =~= code_fragment@); } } assert(/* @C05:wloc.number.is.new.file.start */ plus_line_number == line_numbers_and_hunk_lengths@.last().0);
+//@afterstmt <<<let plus_line_number =>>>| proof { reveal_strlit(" "); reveal_strlit(""); if style_sections is Some && line@.len() > 0 { assert(/* @C03:when.style.sections.are.supplied.the.text.to.paint.is.the.code.fragment.they.were.computed.for */ line@ =~= code_fragment@ + seq![' ']); assert(line@.drop_last() =~= code_fragment@); } } assert(/* @C05:wloc.number.is.new.file.start */ plus_line_number == line_numbers_and_hunk_lengths@.last().0); assert(/* @C14,C02:the.text.of.a.hunk.header.is.the.code.fragment.unchanged.when.it.is.asked.for.and.there.is.one.the.whole.line.under.color.only.and.nothing.otherwise */ line@ =~= (if config.color_only && style_sections is None { line0 } else if *include_code_fragment is Yes && code_fragment@.len() > 0 { code_fragment@ + seq![' '] } else { Seq::<char>::empty() }));
+//@before <<<let line = if>>>| let ghost line0 = line@;
 
 /// (R3) `self.line.chars().take_while(|c| c == &'@').count()`: number of leading '@' characters.
 pub uninterp spec fn leading_ats(s: Seq<char>) -> usize;
